@@ -31,3 +31,10 @@ impl S {
     #[cache(limit = 3)]
     pub fn m(&self, a: u32) -> u64 { env::body(6, a + self.id) }
 }
+
+#[cache]
+pub fn g_two(a: u32, b: u32) -> u64 { env::body(7, a ^ b) }
+#[cache]
+pub fn g_strs(a: String, b: String) -> u64 { env::body(8, (a.len() + b.len()) as u32) }
+#[cache_async]
+pub async fn a_two(a: u32, b: String) -> u64 { env::body(9, a + b.len() as u32) }
